@@ -32,6 +32,10 @@ Scenario (JSON-serialisable dict, every time in absolute virtual milliseconds, -
               transport then pauses at the body write instead of the head write
   c0          0|1|2: Task.cancelling() of the calling task when it starts the request (pre-cancelled and caught)
   think       ms the consumer sleeps after the headers before reading the body
+  consume     None: `await resp.read()` | "stream": `while await resp.content.readany()` inside `async with` |
+              "early": leaves the `async with` block after the first chunk (the rest of the body is not read)
+  redirect    1: the first response in `resp` (up to its eof piece) is a 302 to another host; the request goes on
+              there on a new connection (`conn[1]`), the remaining `resp` entries belong to that second hop
   slow        1: the consumer streams instead: readany(), sleep `think`, readany(), ... until EOF
   bufsize     read_bufsize of the session (pause threshold = 2*bufsize)
 """
@@ -267,6 +271,14 @@ class Env:
         sock = FakeSock()
         self.socks.append(sock)
         if self.owner() == "R" and not self.unstalled:
+            if self.sc.get("redirect") and self.conn_futs and "hop2_start" not in self.trace:
+                # second hop: its own exchange trace (the first hop's is kept under hop1_*)
+                self.trace["hop1_eof_at"] = self.trace["eof_at"]
+                self.trace["hop2_start"] = self.now()
+                self.trace["eof_at"] = None
+                self.trace["delivered"] = []
+                self.trace["established"] = []
+                self.trace["attempts"] = []
             fut = self.loop.create_future()
             self.conn_futs.append(fut)
             self.trace["attempts"].append(self.now())
@@ -397,6 +409,17 @@ def run_scenario(sc):
                                 break
                             await asyncio.sleep(think / 1000.0)
                         body = b""
+                    elif name == "R" and sc.get("consume") in ("stream", "early"):
+                        # the caller consumes resp.content itself inside `async with`: an exception (timeout,
+                        # cancellation) or an early exit leaves through __aexit__ → release() / wait_for_close(),
+                        # not through ClientResponse.read()'s own `except: self.close()`
+                        if think:
+                            await asyncio.sleep(think / 1000.0)
+                        while True:
+                            chunk = await r.content.readany()
+                            if not chunk or sc["consume"] == "early":
+                                break
+                        body = b""
                     else:
                         if think:
                             await asyncio.sleep(think / 1000.0)
@@ -461,8 +484,12 @@ def run_scenario(sc):
         for j, q in enumerate(sc.get("resp", [])):
             t, hx, last = q[0], q[1], (q[2] if len(q) > 2 else 0)
 
-            def deliver(hx=hx, last=last):
+            hop2 = bool(sc.get("redirect")) and any((len(x) > 2 and x[2]) for x in sc.get("resp", [])[:j])
+
+            def deliver(hx=hx, last=last, hop2=hop2):
                 tr = env.r_transport()
+                if hop2 and sum(1 for x in env.transports if x.owner == "R") < 2:
+                    return        # bytes of the second hop's peer: there is no second connection (yet)
                 if tr is not None:
                     if last and not tr.closing:
                         # the scripted exchange is over: whoever reuses this connection gets answers
